@@ -33,6 +33,9 @@ const (
 	BindByName   Binding = iota // cold root, Go type name == GraphQL type name
 	BindRegister                // RegisterType for every object type
 	BindGoDir                   // @go(type:) directive (schema variant GoDir != 0)
+	// RegisterType for every object type AND B.name bound by RegisterField to the method NameB: the struct field B.Name then
+	// holds a decoy, so resolving a B with the binding of another type (A.name is the struct field) shows
+	BindRegisterFields
 )
 
 func (r *Run) fault(k CallKey) error {
@@ -455,6 +458,7 @@ type A struct {
 }
 type B struct {
 	Common
+	RealName string // the name under BindRegisterFields (Common.Name is a decoy then)
 	OnlyB int
 	Buddy *B
 }
@@ -465,11 +469,35 @@ type C struct {
 }
 type Query struct {
 	Common
-	A  *A
-	B  *B
-	C  *C
-	As []*A
+	A    *A
+	B    *B
+	C    *C
+	As   []*A
+	Val  V   // a struct VALUE in a struct field
+	Vals []V // and a slice of struct values of a type that is bound as a value
 }
+
+// V is bound to the GraphQL type V as a VALUE type (RegisterType(V{}), or its name); its method has a value receiver.
+type V struct {
+	Xr  *Run  `json:"-"`
+	Xn  *Node `json:"-"`
+	ID  string
+	Vid string
+}
+
+func (v V) Vm() (interface{}, error) {
+	v.Xr.record(v.Xn, "vm", nil)
+	if err := v.Xr.fault(CallKey{v.Xn.ID, "vm"}); err != nil {
+		if v.Xr.Faults[CallKey{v.Xn.ID, "vm"}] == FaultValErr {
+			return v.Xr.value(v.Xn, "vm", nil), err
+		}
+		return nil, err
+	}
+	return v.Xr.value(v.Xn, "vm", nil), nil
+}
+
+// NameB answers B.name under BindRegisterFields (RegisterField("B", "name", "NameB")).
+func (b *B) NameB() string { return b.RealName }
 type Mutation struct {
 	Xr *Run
 	Xn *Node
@@ -543,6 +571,7 @@ func (m *Mutation) Set(s string) (interface{}, error) {
 }
 
 type fsBuilder struct {
+	decoyB bool // BindRegisterFields: B.Name holds a decoy, B.RealName the name
 	r     *Run
 	objs  map[*Node]interface{}
 	depth int
@@ -617,6 +646,7 @@ func (b *fsBuilder) obj(n *Node) interface{} {
 		b.objs[n] = o
 		x.OnlyB, _ = n.F["onlyB"].(int)
 		x.Buddy, _ = b.obj(nodeOf(n.F["buddy"])).(*B)
+		x.RealName, _ = n.F["name"].(string)
 	case "C":
 		x := &C{}
 		o, c = x, &x.Common
@@ -633,6 +663,27 @@ func (b *fsBuilder) obj(n *Node) interface{} {
 		if l, ok := n.F["as"].([]interface{}); ok {
 			x.As = b.as(l)
 		}
+		mkV := func(vn *Node) V {
+			vid, _ := vn.F["vid"].(string)
+			id, _ := vn.F["id"].(string)
+			return V{Xr: b.r, Xn: vn, Vid: vid, ID: id}
+		}
+		if vn := nodeOf(n.F["val"]); vn != nil {
+			x.Val = mkV(vn)
+		}
+		if l, ok := n.F["vals"].([]interface{}); ok {
+			for _, e := range l {
+				if vn := nodeOf(e); vn != nil {
+					x.Vals = append(x.Vals, mkV(vn))
+				}
+			}
+		}
+	case "V":
+		vid, _ := n.F["vid"].(string)
+		id, _ := n.F["id"].(string)
+		x := V{Xr: b.r, Xn: n, Vid: vid, ID: id}
+		b.objs[n] = x
+		return x
 	case "Mutation":
 		x := &Mutation{Xr: b.r, Xn: n}
 		b.objs[n] = x
@@ -652,6 +703,9 @@ func (b *fsBuilder) obj(n *Node) interface{} {
 	c.I, _ = n.F["i"].(int)
 	c.S, _ = n.F["s"].(string)
 	c.Name, _ = n.F["name"].(string)
+	if b.decoyB && n.Type == "B" {
+		c.Name = "DECOY-the-struct-field-must-not-answer:" + c.Name
+	}
 	if e, ok := n.F["e"].(EnumVal); ok {
 		c.E = string(e)
 	}
@@ -747,7 +801,7 @@ func BuildRoot(cfg Config, g *Graph) (*ggql.Root, *Run, error) {
 		root = ggql.NewRoot(&anyRootObj{})
 		root.AnyResolver = &AnyRes{r, cfg.Car}
 	case FS:
-		b := &fsBuilder{r: r, objs: map[*Node]interface{}{}}
+		b := &fsBuilder{r: r, objs: map[*Node]interface{}{}, decoyB: cfg.Bind == BindRegisterFields}
 		r.fsb = b
 		fr := &FSRoot{}
 		fr.Query, _ = b.obj(g.Root).(*Query)
@@ -763,15 +817,20 @@ func BuildRoot(cfg Config, g *Graph) (*ggql.Root, *Run, error) {
 	if err := root.ParseString(sdl); err != nil {
 		return nil, nil, err
 	}
-	if cfg.Strat == FS && cfg.Bind == BindRegister {
+	if cfg.Strat == FS && (cfg.Bind == BindRegister || cfg.Bind == BindRegisterFields) {
 		for _, reg := range []struct {
 			sample interface{}
 			name   string
-		}{{&A{}, "A"}, {&B{}, "B"}, {&C{}, "C"}, {&Query{}, "Query"}, {&Mutation{}, "Mutation"}} {
+		}{{&A{}, "A"}, {&B{}, "B"}, {&C{}, "C"}, {&Query{}, "Query"}, {&Mutation{}, "Mutation"}, {V{}, "V"}} {
 			if cfg.Schema == nil || cfg.Schema.Type(reg.name) != nil {
 				if err := root.RegisterType(reg.sample, reg.name); err != nil {
 					return nil, nil, err
 				}
+			}
+		}
+		if cfg.Bind == BindRegisterFields && (cfg.Schema == nil || cfg.Schema.Type("B") != nil) {
+			if err := root.RegisterField("B", "name", "NameB"); err != nil {
+				return nil, nil, err
 			}
 		}
 	}
